@@ -49,13 +49,22 @@ def unit_grids(unit):
 
 
 def fields(nrows, ncols, seed, few=False):
+    """(name, field values or None, nodata of the field grid, nodata of the flow direction grid).
+    The no-data markers are chosen so that they are *reachable*: a partial sum can equal the marker
+    (cell+1 with marker 3 = 1+2; counts with marker 3) and flow direction cells can hold the marker
+    (the invalid code of this seed)."""
     ntot = nrows * ncols
     pat = [-2.0, 0.0, 3.0]
-    f = [("default", None),
-         ("cell+1", [float(c + 1) for c in range(ntot)])]
+    inv = _flow.invalid_code(seed)
+    f = [("default", None, None, 0),
+         ("cell+1", [float(c + 1) for c in range(ntot)], -999.0, 0)]
     if not few:
-        f += [("uniform0.25", [0.25] * ntot),
-              ("posneg", [pat[(c + seed) % 3] for c in range(ntot)])]
+        f += [("uniform0.25", [0.25] * ntot, -999.0, 0),
+              ("posneg", [pat[(c + seed) % 3] for c in range(ntot)], -999.0, 0),
+              ("default:fdnodata=3", None, None, 3),
+              ("default:fdnodata=invalid", None, None, inv),
+              ("cell+1:nodata=3", [float(c + 1) for c in range(ntot)], 3.0, inv),
+              ("posneg:nodata=0", [pat[(c + seed) % 3] for c in range(ntot)], 0.0, 0)]
     return f
 
 
@@ -76,16 +85,16 @@ def check_grid(ctx, nrows, ncols, codes, seed, few=False):
             if cyc:
                 tainted.update(cells)
         # everything downstream of a tainted cell is on the cycle already (chains end in the cycle)
-    for fname, fvals in fields(nrows, ncols, seed, few):
+    for fname, fvals, fnodata, fdnodata in fields(nrows, ncols, seed, few):
         case = dict(base, field=fname)
-        fd = Grid("fd", ncols, nrows, dtype=np.int64)
+        fd = Grid("fd", ncols, nrows, dtype=np.int64, nodata=fdnodata)
         fd.data = arr
         if fvals is None:
             toacc = None
             own = [1.0] * ntot
             nodata_exp = None
         else:
-            toacc = Grid("acc", ncols, nrows, dtype=np.float64, nodata=-999.0)
+            toacc = Grid("acc", ncols, nrows, dtype=np.float64, nodata=fnodata)
             toacc.data = np.array(fvals).reshape(nrows, ncols)
             own = fvals
         fd_before = fd.data.copy()
@@ -127,7 +136,7 @@ def check_grid(ctx, nrows, ncols, codes, seed, few=False):
             ctx.traces += 1
             exp = Fraction(own[c]) + sum(Fraction(own[u]) for u in closure)
             if abs(o - float(exp)) > 1e-9:
-                ctx.violation("accumulate:value:%s" % ("uniform" if fname in ("default", "uniform0.25") else "nonuniform"), case,
+                ctx.violation("accumulate:value:%s" % ("uniform" if fname.split(":")[0] in ("default", "uniform0.25") else "nonuniform"), case,
                               "cell %d: accumulated %r, sum over itself and %d upstream cells = %r" % (c, o, len(closure), float(exp)),
                               observed=out.tolist(), expected=float(exp))
                 continue
